@@ -7,32 +7,122 @@ from props._gitobj import GitRepo
 
 ID = "C03"
 THEOREMS = ["C03_payload_commit_refuted", "C03_sig_commit_refuted", "C03_strip_commit_partial", "C03_payload_commit_partial",
-            "C03_sig_commit_partial", "C03_accepts_iff_commit", "C03_fresh_matches_source", "C03_mutated_commit", "C03_mutated_tag",
-            "C03_payload_tag_refuted", "C03_strip_tag_partial", "C03_payload_tag_partial"]
+            "C03_sig_commit_partial", "C03_accepts_iff_commit", "C03_verify_commit",
+            "C03_payload_commit_sha256_partial", "C03_sig_commit_sha256_partial", "C03_accepts_iff_commit_sha256_refuted",
+            "C03_accepts_iff_commit_sha256_partial",
+            "C03_fresh_matches_source", "C03_mutated_commit", "C03_mutated_tag",
+            "C03_payload_tag_refuted", "C03_strip_tag_partial", "C03_payload_tag_partial",
+            "C03_sig_tag_refuted", "C03_sig_tag_partial", "C03_nosig_tag_partial", "C03_accepts_iff_tag"]
 MODEL_FILES = ["ObjLines.v", "Ident.v", "Commit.v", "Tag.v", "SigPayload.v"]
 MODELLED = ("plumbing/object/signature.go: isSignatureHeader, stripHeaderSignatures, stripObjectSignatures, parseSignedBytes, "
-            "countSignatureBlocks, typeForSignature; commit.go/tag.go: EncodeWithoutSignature, matchesSource, signatureEqual, and the "
-            "scanners that fill Commit.Signature / Tag.Signature (Model/SigPayload.v on top of Model/Commit.v, Model/Tag.v, Model/Ident.v). "
-            "S: Spec/GitSig.v = git 2.39 commit.c parse_buffer_signed_by_header (verify-commit), gpg-interface.c parse_signed_buffer + "
-            "parse_signature with commit.c's two-slot remove_signature (verify-tag). Not modelled: openpgp verification itself (a verifier "
-            "is any function of payload and signature), Commit.Verify's key-ring handling, SHA-256 repositories (gpgsig-sha256 as THE signature)")
+            "countSignatureBlocks, typeForSignature; commit.go/tag.go: EncodeWithoutSignature, matchesSource, signatureEqual, Commit.Verify / "
+            "Tag.Verify (multi-block refusal, which field is handed to the verifier), and the scanners that fill Commit.Signature / "
+            "Commit.SignatureSHA256 / Tag.Signature (Model/SigPayload.v on top of Model/Commit.v, Model/Tag.v, Model/Ident.v). "
+            "S: Spec/GitSig.v = git 2.39 commit.c parse_buffer_signed_by_header with the signature header of the repository's object format "
+            "(gpgsig in SHA-1, gpgsig-sha256 in SHA-256 repositories; verify-commit), gpg-interface.c parse_signed_buffer + parse_signature "
+            "with commit.c's two-slot remove_signature (verify-tag, format independent). Not modelled: the OpenPGP check itself (a verifier "
+            "is any function of payload and signature; exercised with a real key by the cverify/tverify cases), key-ring parsing")
 TRUSTED = [
     "C-impl: EncodeWithoutSignature / Signature fields of decoded (and mutated) commits and tags through harness/cmd/c03 vs Model/SigPayload on every case",
     "C-git: Spec/GitSig (S) vs the payload and signature git 2.39.5 hands to gpg.program / gpg.x509.program / gpg.ssh.program "
-    "(a script that dumps stdin and the signature file) during `git verify-commit` / `git verify-tag`, on the same stored objects",
+    "(a script that dumps stdin and the signature file) during `git verify-commit` / `git verify-tag`, on the same stored objects, "
+    "in a SHA-1 and in a SHA-256 repository (objects with 64-digit ids)",
+    "cverify/tverify: Commit.Verify / Tag.Verify run with a throw-away OpenPGP key (ProtonMail/go-crypto) on objects carrying a real "
+    "signature over a chosen payload; git's verdict is derived from the (payload, signature) pair the git binary hands to gpg.program: "
+    "accept when it is exactly (signed payload, that signature), reject when the payload differs or the signature is absent, no verdict otherwise",
     "the known-finding classes are decided by the boolean guards of Spec/SigGuards (the hypotheses of the _partial theorems), evaluated by Coq",
 ]
-ASSUMPTIONS = ["SHA-1 repository: git verifies the `gpgsig` header of commits and the inline trailing signature of tags",
+ASSUMPTIONS = ["git verifies the `gpgsig` header of commits in a SHA-1 repository, the `gpgsig-sha256` header in a SHA-256 repository, and "
+               "the inline trailing signature of tags in both",
+               "a signature buffer with several armored blocks is refused by git (gpg prints one status per block, parse_gpg_output "
+               "refuses the second) — modelled on go-git's side only (countSignatureBlocks), not compared with a real gpg",
                "git only calls the verifier for signatures starting with a known armor line; other objects are not compared",
                "three or more gpgsig regions in a tag header are undefined behaviour in git 2.39 (it aborts): excluded"]
 RULE = ("case = stored commit/tag bytes with 0..4 signature headers in any header position, continuation lines, gpgsig-prefixed other "
         "headers, inline PGP/SSH/X509 blocks (buckets sigs, canonical, permuted, dups, oddident, oddhdr, eofhdr, trunc, junk), optionally one "
-        "exported field mutated after Decode; non-trivial = contains a gpgsig header or an armor line, or is a mutation case; distinct by content")
+        "exported field mutated after Decode, or (cverify/tverify) a template with a real OpenPGP signature in the gpgsig / gpgsig-sha256 "
+        "header or inline; ids of 40 or 64 hex digits (fmt); non-trivial = contains a gpgsig header or an armor line, or is a mutation / "
+        "verify case; distinct by content")
 
 VISIBLE_C = ["msg", "tree", "addparent", "enc", "addextra", "a.name", "a.email", "a.ts", "a.tz", "c.name", "c.email", "c.ts", "c.tz", "hash"]
 INVISIBLE_C = ["none", "sig", "sig256", "a.nsec", "c.nsec"]
 VISIBLE_T = ["msg", "name", "target", "type", "t.name", "t.email", "t.ts", "t.tz", "hash"]
 INVISIBLE_T = ["none", "sig", "sig256", "t.nsec"]
+
+
+TOKEN = b"-----BEGIN PGP SIGNATURE-----\n\nTOKEN\n-----END PGP SIGNATURE-----\n"      # stands for the real signature in the model
+FAKE = b"-----BEGIN PGP SIGNATURE-----\n\nFAKE\n-----END PGP SIGNATURE-----\n"
+
+
+def embed(where, sig):
+    """an armored block as a header value (continuation lines) or inline — mirrors harness/cmd/c03 embed"""
+    if where == "inline":
+        return sig
+    return where.encode() + b" " + sig[:-1].replace(b"\n", b"\n ") + b"\n"
+
+
+def flat(groups):
+    return b"".join(b"".join(ls) for _, ls in groups)
+
+
+def verify_case(rng, op):
+    """a template around ONE real signature: pre ++ embed(where, sig) ++ post, and the payload that gets signed (git's
+    payload of the finished object unless the scenario says otherwise)"""
+    fmt = "sha256" if rng.random() < 0.4 else "sha1"
+    G.DEFAULT_HL[0] = 64 if fmt == "sha256" else 40
+    try:
+        if op == "cverify":
+            g = G.commit_headers(rng, nsig=0, n256=0)
+            msg = G.message(rng)
+        else:
+            g = G.tag_headers(rng)
+            msg = G.message(rng, rng.choice(["plain", "plain", "blanktail", "headerlike", "empty"]))
+            if msg and not msg.endswith(b"\n"):
+                msg += b"\n"
+    finally:
+        G.DEFAULT_HL[0] = 40
+    fake = lambda key: ("sig", G.multiline_header(key, FAKE[:-1].split(b"\n")))
+    if op == "cverify":
+        primary, other = ("gpgsig", "gpgsig-sha256") if fmt == "sha1" else ("gpgsig-sha256", "gpgsig")
+        scen = pick_weighted(rng, [(5, "good"), (2, "other-header"), (2, "both"), (1, "foreign"), (2, "two-blocks"), (1, "tampered")])
+        where = other if scen == "other-header" else primary
+        payload = G.assemble(g, msg)
+        groups = list(g)
+        if scen == "both":
+            groups.insert(rng.randrange(1, len(groups) + 1), fake(other.encode()))
+        elif scen == "foreign":
+            groups.insert(rng.randrange(1, len(groups) + 1), ("sig", [b"gpgsigx y\n"] + ([b" cont\n"] if rng.random() < 0.5 else [])))
+        elif scen == "two-blocks":
+            groups.insert(rng.randrange(1, len(groups) + 1), fake(where.encode()))
+        elif scen == "tampered":
+            payload = payload[:-1] + b"X" if payload else b"X"
+        pos = rng.randrange(1, len(groups) + 1)
+        pre, post = flat(groups[:pos]), flat(groups[pos:]) + b"\n" + msg
+    else:
+        scen = pick_weighted(rng, [(5, "good"), (2, "hdr256"), (1, "hdr-gpgsig"), (1, "two-inline"), (1, "tampered"), (1, "adjacent"), (1, "marker-hdr")])
+        where = "inline"
+        groups = list(g)
+        body = msg
+        if scen == "hdr256":
+            groups.append(fake(b"gpgsig-sha256"))
+        elif scen == "hdr-gpgsig":
+            groups.insert(rng.randrange(3, len(groups) + 1), fake(b"gpgsig"))
+        elif scen == "adjacent":
+            groups += [("sig", [b"gpgsig a\n"]), ("sig", [b"gpgsig-sha256 b\n"])]
+        elif scen == "marker-hdr":
+            groups.insert(rng.randrange(3, len(groups) + 1), ("marker", [rng.choice(G.MARKERS) + b"\n"]))
+        elif scen == "two-inline":
+            body = msg + FAKE
+        payload = G.assemble([x for x in groups if x[0] != "sig"], body)
+        if scen == "tampered":
+            payload = payload[:-1] + b"X"
+        pre, post = flat(groups) + b"\n" + body, b""
+    return {"op": op, "bucket": "%s-%s-%s" % (op, scen, fmt), "fmt": fmt, "scen": scen, "where": where, "pre": pre.hex(), "post": post.hex(),
+            "payload": payload.hex()}
+
+
+def model_raw(c):
+    return bytes.fromhex(c["pre"]) + embed(c["where"], TOKEN) + bytes.fromhex(c["post"])
 
 
 def cb(h):
@@ -126,7 +216,7 @@ def commit_class(raw):
         i = len(h) - 1
         while i > 0 and h[i].startswith(b" "):
             i -= 1
-        if h[i].startswith(b"gpgsig "):
+        if h[i].startswith(b"gpgsig ") or h[i].startswith(b"gpgsig-sha256 "):
             return "commit-gpgsig-unterminated"
     return None
 
@@ -180,17 +270,21 @@ class Main(Suite):
     def gen(self, rng, n, tier):
         cases = []
         for _ in range(n):
-            op = pick_weighted(rng, [(6, "cpay"), (6, "tpay"), (2, "cmut"), (2, "tmut"), (1, "psb"), (1, "strip")])
-            if op in ("cpay", "cmut"):
+            op = pick_weighted(rng, [(6, "cpay"), (6, "tpay"), (2, "cmut"), (2, "tmut"), (1, "psb"), (1, "strip"), (2, "cverify"), (1, "tverify")])
+            fmt = "sha256" if op in ("cpay", "tpay") and rng.random() < 0.3 else "sha1"
+            hl = 64 if fmt == "sha256" else 40
+            if op in ("cverify", "tverify"):
+                c = verify_case(rng, op)
+            elif op in ("cpay", "cmut"):
                 b = pick_weighted(rng, [(4, "sigs"), (3, "canonical"), (1, "permuted"), (1, "dups"), (1, "oddident"), (2, "oddhdr"), (1, "eofhdr"), (1, "trunc"), (1, "junk")]) if op == "cpay" else \
                     pick_weighted(rng, [(4, "canonical"), (3, "sigs"), (1, "dups"), (1, "oddident")])
-                c = {"op": op, "bucket": op + "-" + b, "raw": G.raw_commit(rng, b).hex()}
+                c = {"op": op, "bucket": op + "-" + b + ("-256" if hl == 64 else ""), "fmt": fmt, "raw": G.raw_commit(rng, b, hl).hex()}
                 if op == "cmut":
                     self.mutation(rng, c, VISIBLE_C, INVISIBLE_C)
             elif op in ("tpay", "tmut"):
                 b = pick_weighted(rng, [(4, "canonical"), (4, "sigs"), (1, "oddident"), (2, "oddhdr"), (1, "eofhdr"), (1, "trunc"), (1, "junk")]) if op == "tpay" else \
                     pick_weighted(rng, [(4, "canonical"), (2, "sigs"), (1, "oddident")])
-                c = {"op": op, "bucket": op + "-" + b, "raw": G.raw_tag(rng, b).hex()}
+                c = {"op": op, "bucket": op + "-" + b + ("-256" if hl == 64 else ""), "fmt": fmt, "raw": G.raw_tag(rng, b, hl).hex()}
                 if op == "tmut":
                     self.mutation(rng, c, VISIBLE_T, INVISIBLE_T)
             elif op == "psb":
@@ -227,19 +321,29 @@ class Main(Suite):
             return 'c03_cmut "%s" %s' % (c["raw"], coq_cmut(c))
         if op == "tmut":
             return 'c03_tmut "%s" %s' % (c["raw"], coq_tmut(c))
+        if op in ("cverify", "tverify"):
+            return 'c03_%s "%s" "%s" "%s"' % (op, model_raw(c).hex(), c["payload"], TOKEN.hex())
 
     def nontrivial(self, c):
-        return c["op"] in ("cmut", "tmut") or b"gpgsig" in bytes.fromhex(c["raw"]) or b"-----BEGIN" in bytes.fromhex(c["raw"])
+        if c["op"] in ("cmut", "tmut", "cverify", "tverify"):
+            return True
+        return b"gpgsig" in bytes.fromhex(c["raw"]) or b"-----BEGIN" in bytes.fromhex(c["raw"])
 
-    def sides(self, ctx, cases):
-        """-> (git: {id: (payload, sig) | (None, reason)}, guards {id: [bool, bool]} from Spec/SigGuards, S outputs)"""
+    def kind_of(self, c):
+        return "commit" if c["op"] in ("cpay", "cmut", "cverify") else "tag"
+
+    def sides(self, ctx, cases, impl):
+        """-> (git: {id: (payload, sig) | (None, reason)}, guards {id: [bool, bool]} from Spec/SigGuards, S outputs).
+        Objects are stored in a repository of their object format (fmt); verify cases store the object the harness built."""
         if getattr(self, "_cache", None) and self._cache[0] is cases:
             return self._cache[1]
-        cs = [c for c in cases if c["op"] in ("cpay", "tpay", "cmut", "tmut")]
+        cs = [c for c in cases if c["op"] in ("cpay", "tpay", "cmut", "tmut", "cverify", "tverify")]
         exprs = []
         for c in cs:
-            k = "commit" if c["op"] in ("cpay", "cmut") else "tag"
-            exprs.append('OList [c03_guards_%s "%s"; c03_spec_%s "%s"]' % (k, c["raw"], k, c["raw"]))
+            k = self.kind_of(c)
+            raw = model_raw(c).hex() if c["op"] in ("cverify", "tverify") else c["raw"]
+            sp = "commit256" if k == "commit" and c.get("fmt") == "sha256" else k
+            exprs.append('OList [c03_guards_%s "%s"; c03_spec_%s "%s"]' % (k, raw, sp, raw))
         outs = ctx.coq_eval(self.coq_imports, exprs)
         guards, spec = {}, {}
         for c, o in zip(cs, outs):
@@ -248,33 +352,77 @@ class Main(Suite):
             mm = re.match(r"^\( \( (true|false) (true|false) \) (.*) \)$", o)
             guards[c["id"]] = [mm.group(1) == "true", mm.group(2) == "true"]
             spec[c["id"]] = mm.group(3)
-        repo = GitRepo(ctx.tmp, "c03ref%d" % len(cases))
         git = {}
-        for kind, ops in (("commit", ("cpay", "cmut")), ("tag", ("tpay", "tmut"))):
-            ks = [c for c in cs if c["op"] in ops]
-            oids = repo.store(kind, [bytes.fromhex(c["raw"]) for c in ks])
-            # quick tier: git is asked about every object S expects a signature in, and a sample of the others
-            ask = [ctx.tier != "quick" or spec.get(c["id"], "") != "nosig" or n % 4 == 0 for n, c in enumerate(ks)]
-            outs = repo.pmap(lambda oa: repo.verify(kind, oa[0]) if oa[1] else (None, "unasked"), list(zip(oids, ask)))
-            for c, o in zip(ks, outs):
-                git[c["id"]] = o
+        for fmt in ("sha1", "sha256"):
+            fc = [c for c in cs if c.get("fmt", "sha1") == fmt]
+            if not fc:
+                continue
+            repo = GitRepo(ctx.tmp, "c03ref%s-%d" % (fmt, len(cases)), fmt)
+            for kind in ("commit", "tag"):
+                ks, raws = [], []
+                for c in fc:
+                    if self.kind_of(c) != kind:
+                        continue
+                    if c["op"] in ("cverify", "tverify"):
+                        ex = (impl.get(c["id"]) or {}).get("extra") or {}
+                        if "raw" not in ex:
+                            continue
+                        raws.append(bytes.fromhex(ex["raw"]))
+                    else:
+                        raws.append(bytes.fromhex(c["raw"]))
+                    ks.append(c)
+                oids = repo.store(kind, raws)
+                # quick tier: git is asked about every object S expects a signature in, and a sample of the others
+                ask = [ctx.tier != "quick" or c["op"] in ("cverify", "tverify") or spec.get(c["id"], "") != "nosig" or n % 4 == 0
+                       for n, c in enumerate(ks)]
+                outs = repo.pmap(lambda oa: repo.verify(kind, oa[0]) if oa[1] else (None, "unasked"), list(zip(oids, ask)))
+                for c, o in zip(ks, outs):
+                    git[c["id"]] = o
         self._cache = (cases, (git, guards, spec))
         return self._cache[1]
 
     def oracle(self, ctx, cases, impl, model):
-        """the property on the implementation: payload and signature handed to a verifier == git's"""
+        """the property on the implementation: payload and signature handed to a verifier == git's; with a real key,
+        Verify accepts exactly when git's (payload, signature) pair is the signed one"""
         fails = {}
-        git, guards, spec = self.sides(ctx, cases)
+        git, guards, spec = self.sides(ctx, cases, impl)
+        self._vstats = {"git_accepts": 0, "git_rejects": 0, "no_verdict": 0, "agree": 0}
         for c in cases:
             i, op = c["id"], c["op"]
-            if op not in ("cpay", "tpay", "cmut", "tmut") or i not in guards:
+            if op not in ("cpay", "tpay", "cmut", "tmut", "cverify", "tverify") or i not in guards:
                 continue
             r = impl.get(i)
             if r is None:
                 fails[i] = "no reply"
                 continue
             got = parse_ok(r["out"])
-            gp, gs = git[i]
+            gp, gs = git.get(i, (None, "unasked"))
+            if op in ("cverify", "tverify"):
+                if got is None or gs == "unasked":
+                    continue
+                ex = r.get("extra") or {}
+                raw, sig, signed = bytes.fromhex(ex["raw"]), bytes.fromhex(ex["sig"]), bytes.fromhex(c["payload"])
+                go_ok = got[0] == "true"
+                if gp is not None and gp == signed and gs == sig:
+                    git_ok = True
+                elif gp is None and gs in ("nosig", "badformat") or gp is not None and (gp != signed or sig not in gs):
+                    git_ok = False
+                else:
+                    self._vstats["no_verdict"] += 1
+                    continue        # several blocks in git's signature buffer, git refuses the object ...: no verdict
+                self._vstats["git_accepts" if git_ok else "git_rejects"] += 1
+                self._vstats["agree"] += go_ok == git_ok
+                if go_ok != git_ok:
+                    cls = None
+                    if op == "cverify" and c["fmt"] == "sha256" and (c["where"], go_ok) in (("gpgsig-sha256", False), ("gpgsig", True)):
+                        cls = "commit-sha256-verify-field"
+                    elif op == "cverify":
+                        cls = known_class("cpay", raw, guards[i], "payload")
+                    else:
+                        cls = known_class("tpay", raw, guards[i], "payload" if gp is not None and gp != signed or git_ok else "sig")
+                    fails[i] = "Verify %s a signature git %s (%s, %s) [class=%s]" % (
+                        "accepts" if go_ok else "rejects", "accepts" if git_ok else "rejects", c["scen"], c["fmt"], cls)
+                continue
             if op in ("cmut", "tmut"):
                 if got is None:
                     continue
@@ -294,6 +442,12 @@ class Main(Suite):
                 continue        # go-git does not decode the object: C02's business (git verify-tag does not parse the tag at all)
             elif got[0] != gp:
                 fails[i] = "payload differs from git's: %r vs %r [class=%s]" % (got[0][-80:], gp[-80:], known_class(op, raw, guards[i], "payload"))
+            elif op == "cpay" and c.get("fmt") == "sha256":
+                # SHA-256 repository: git's signature is the gpgsig-sha256 header; Commit.Verify hands Commit.Signature to the verifier
+                if got[2] != gs:
+                    fails[i] = "SignatureSHA256 differs from git's signature: %r vs %r [class=%s]" % (got[2][-60:], gs[-60:], known_class(op, raw, guards[i], "sig"))
+                elif got[1] != gs:
+                    fails[i] = "signature handed to the verifier differs from git's (sha256 repository): %r vs %r [class=commit-sha256-verify-field]" % (got[1][-60:], gs[-60:])
             elif got[1] != gs:
                 fails[i] = "signature differs from git's: %r vs %r [class=%s]" % (got[1][-60:], gs[-60:], known_class(op, raw, guards[i], "sig"))
         return fails
@@ -304,13 +458,13 @@ class Main(Suite):
 
     def extra(self, ctx, cases, impl, model):
         """C-git: S (Spec/GitSig) vs the git binary on the same objects"""
-        git, guards, spec = self.sides(ctx, cases)
+        git, guards, spec = self.sides(ctx, cases, impl)
         cs = [c for c in cases if c["op"] in ("cpay", "tpay") and c["id"] in spec]
         outs = [spec[c["id"]] for c in cs]
-        bad = compared = undefined = 0
+        bad = compared = undefined = compared256 = 0
         stats = {}
         for c, o in zip(cs, outs):
-            gp, gs = git[c["id"]]
+            gp, gs = git.get(c["id"], (None, "unasked"))
             if gp is None and gs == "unasked":
                 continue
             k = "dumped" if gp is not None else gs.split(":")[0]
@@ -319,6 +473,8 @@ class Main(Suite):
                 bad += 1
                 ctx.notes.append("spec evaluation failed on %s" % c["raw"][:80])
                 continue
+            if c.get("fmt") == "sha256" and (gp is not None or gs == "nosig"):
+                compared256 += 1
             if gp is not None:
                 compared += 1
                 want = "( ok x%s x%s )" % (gp.hex(), gs.hex())
@@ -334,7 +490,11 @@ class Main(Suite):
                 undefined += 1
                 if o != "undefined":
                     ctx.notes.append("git crashed where S is defined on %s %s: S=%s" % (c["op"], c["raw"], o[:120]))
-        return {"spec_vs_git_cases": compared, "spec_mismatches": bad, "git_outcomes": stats, "git_crashes": undefined}
+        nver = sum(1 for c in cases if c["op"] in ("cverify", "tverify"))
+        acc = sum(1 for c in cases if c["op"] in ("cverify", "tverify") and (parse_ok((impl.get(c["id"]) or {}).get("out", "")) or [""])[0] == "true")
+        return {"spec_vs_git_cases": compared, "spec_vs_git_cases_sha256": compared256, "spec_mismatches": bad, "git_outcomes": stats,
+                "git_crashes": undefined, "verify_cases": nver, "verify_accepted_by_go_git": acc,
+                "verify_verdicts": getattr(self, "_vstats", None)}
 
 
 SUITES = [Main()]
